@@ -336,6 +336,8 @@ def eval_script(binp, lines, dbg, tag):
 def shrink_case(binp, case_lines, fail_idx, dbg, want_type, budget=120):
     """keep the construction lines and the failing request; then shrink value lists"""
     head = case_lines[0]
+    if "_unchecked" in case_lines[fail_idx]:
+        return case_lines[:fail_idx + 1]   # shrinking could leave the documented precondition
     setup = [l for l in case_lines[1:fail_idx] if l.split(" ", 1)[0] in ("cfg", "tie", "mk", "op")]
     cur = [head] + setup + [case_lines[fail_idx]]
 
@@ -436,7 +438,7 @@ def space_analysis(pid, script_lines, impl, model, meta):
             # the property's own bounds
             n, m, nlev, b, pfs = None, None, None, None, None
             if fam in ("qwt", "wt", "hqwt", "hwt"):
-                vals = [int(x) for x in info["vals"]]
+                vals = [int(x) for x in info["vals"] if x]
                 n = len(vals)
                 m = max(vals) if vals else 0
                 b, pfs = info["cfg"][0], info["cfg"][1]
@@ -462,7 +464,7 @@ def space_analysis(pid, script_lines, impl, model, meta):
                 live = ih + iself
                 comps = 8
                 if fam in ("qwt", "hqwt", "wt", "hwt"):
-                    vals = [int(x) for x in info["vals"]]
+                    vals = [int(x) for x in info["vals"] if x]
                     mm = max(vals) if vals else 0
                     L = (bitlen(mm) + 1) // 2 if fam in ("qwt", "hqwt") else bitlen(mm)
                     comps = 8 + 12 * L * (5 if info["cfg"][1] else 1)
@@ -487,7 +489,7 @@ def entropy_analysis(script_lines, impl, model):
             case = int(t[1])
         elif t[0] == "mk" and t[2].split(":")[0] in ("hqwt", "hwt"):
             fam = t[2].split(":")[0]
-            cur_vals = [int(x) for x in t[3:]]
+            cur_vals = [int(x) for x in t[3:] if x]
         elif t[0] == "dump" and cur_vals is not None and i < len(impl):
             m = re.search(r"lens:\[([0-9,]*)\]", impl[i])
             if not m:
